@@ -11,7 +11,7 @@ import (
 )
 
 func init() {
-	register("C05", "Structural clauses behind truthful change notifications, decided on all paths of the disk writer: a notification is only reachable after the checked mutation it reports (remove; metadata and rename; data callback completion or digest finalisation); with a notify callback set, no success return is reachable after a mutating call without a notification or the hand-off to the asynchronous writer (the directory-over-directory shortcut violates this: open known finding F6); the digest hashes the caller's header of the stat as sent and exactly the bytes that also go to the file (one multi-writer, fields private to constructor and Close, digest taken before close); delete suppression below a removed directory uses a separator-terminated prefix. The file writer behind the digest hands every chunk through to the file (no success return of lazyFileWriter.Write without a write of the whole slice). What the writer's Close produces (the digest, the close error) is stored before the channel that signals completion is closed (shared with C08). Does not decide 'exactly once' nor that applying the events to a model reproduces the tree.", runC05)
+	register("C05", "Structural clauses behind truthful change notifications, decided on all paths of the disk writer: a notification is only reachable after the checked mutation it reports (remove; metadata and rename; data callback completion or digest finalisation); with a notify callback set, no success return is reachable after a mutating call without a notification or the hand-off to the asynchronous writer (the directory-over-directory shortcut violates this: open known finding F6); the digest hashes the caller's header of the stat as sent and exactly the bytes that also go to the file (one multi-writer, fields private to constructor and Close, digest taken before close); delete suppression below a removed directory uses a separator-terminated prefix. The file writer behind the digest hands every chunk through to the file (no success return of lazyFileWriter.Write without a write of the whole slice). What the writer's Close produces (the digest, the close error) is stored before the channel that signals completion is closed (shared with C08). A special file is created with the type bits of the stat the notification carries (shared with C01). Does not decide 'exactly once' nor that applying the events to a model reproduces the tree.", runC05)
 }
 
 func runC05(c *Ctx) {
@@ -28,6 +28,9 @@ func runC05(c *Ctx) {
 	// was signalled: everything Close produces (digest, close error) is
 	// published before the signal (shared with C08)
 	r08_4(c, "R05.7")
+	// what is created is what the notification describes: a special file is
+	// made with the type bits of the stat as sent (shared with C01)
+	r01_4(c, "R05.8")
 }
 
 // R05.5: the bytes that are hashed are the bytes that are stored.
